@@ -10,7 +10,10 @@ package c20
 
 import (
 	"fmt"
+	"os"
+	"runtime/debug"
 	"sort"
+	"strconv"
 	"strings"
 
 	"github.com/dop251/goja"
@@ -36,6 +39,8 @@ type diffCase struct {
 	mode     string
 	variants []string
 	midSel   int
+	clone    bool
+	third    bool // consult reref (thorough tier)
 	feats    []string
 	origin   string
 }
@@ -51,6 +56,7 @@ type caseRec struct {
 	Limits   []int    `json:"limits,omitempty"`
 	Mode     string   `json:"deopt_mode,omitempty"`
 	Variants []string `json:"variants,omitempty"`
+	Clone    bool     `json:"clone_objects,omitempty"`
 	Note     string   `json:"note,omitempty"`
 }
 
@@ -78,7 +84,7 @@ func (d *diffCase) variantSrc(kind string, u bool) []uint16 {
 func (d *diffCase) rec() caseRec {
 	u := hasFlag(d.flags, 'u')
 	r := caseRec{Kind: "diff", Pattern: unitsStr(d.src(u)), Flags: d.flags, Subject: unitsStr(d.subj), Starts: d.starts, OpStart: d.opStart,
-		Limits: d.limits, Mode: d.mode, Variants: d.variants, Note: d.origin}
+		Limits: d.limits, Mode: d.mode, Variants: d.variants, Note: d.origin, Clone: d.clone}
 	for _, t := range d.repl {
 		r.Repl = append(r.Repl, unitsStr(t))
 	}
@@ -86,6 +92,8 @@ func (d *diffCase) rec() caseRec {
 }
 
 func Check() *core.Check {
+	// the workload makes many short-lived runtimes and compiled patterns: collect less often (live heap is a few MB)
+	debug.SetGCPercent(800)
 	return &core.Check{
 		ID:    "C20",
 		Level: "exploration",
@@ -94,22 +102,33 @@ func Check() *core.Check {
 			"plus a fixed SyntaxError / must-not-throw catalogue (literal and constructor); " +
 			"non-trivial = P compiled to re2 and a variant to regexp2 (accessor) and (subject has a non-ASCII unit or some match is non-empty at index > 0); distinct = distinct (pattern, flags, subject)",
 		Assumptions: []string{
-			"patterns with back-references, look-around, captures inside quantified groups that can match empty, captures on optional paths inside repeated groups are outside the generator's domain (known RE2/spec deviations, pinned as known findings)",
-			"with the i flag alphabets are limited to characters with a simple 1:1 same-plane case pair (Unicode folding without u is a known finding)",
-			"subjects are at most 24 UTF-16 units, patterns at most depth 3: larger inputs are outside the quantifier",
+			"generator domain = semantic intersection of RE2 and ECMAScript: no back-references / look-around in P, no quantified group whose body can match empty (KF C20-empty-check-*), inside repeated groups captures only where they take part in every iteration (KF C20-stale-captures-in-repeat)",
+			"with the i flag alphabets are limited to characters with a simple 1:1 same-plane case pair (KF C20-unicode-folding-without-u); regexp2 needs 50-90 ms to compile large case-insensitive sets, so \\W \\D \\S . and negated classes are rare under i",
+			"neighbourhoods of the listed defects of the dependency regexp2 v2.5.2 are excluded: negated one-character classes, \\b/\\B next to non-ASCII letters/marks/digits, '-' as range start, surrogate literals touching another literal or repeated {2,}, '.' with U+2028/U+2029 in the alphabet, \\D as class item; [] / [^] under u with code points above U+1FFFF (KF C20-empty-class-above-1ffff)",
+			"subjects are at most 24 UTF-16 units, patterns at most depth 3 / 60 units: larger inputs are outside the quantifier",
 			"the regexp engines themselves are not fuel-metered; a battery that exhausts the VM fuel is inconclusive",
+			"a lastIndex inside a surrogate pair under u: the reported index may be lastIndex or lastIndex-1 (spec text leaves it open, V8 backs up); reref (thorough) is not consulted there, nor for the m flag with CR/LS/PS in the subject (KF C20-multiline-anchors-only-lf)",
 		},
 		Cases: func(tier string) int {
-			if tier == "thorough" {
-				return len(catalogue) + 1200000
+			if n := devLimit(); n > 0 {
+				return len(catalogue) + n
 			}
-			return len(catalogue) + 60000
+			if tier == "thorough" {
+				return len(catalogue) + 400000
+			}
+			return len(catalogue) + 30000
 		},
 		MinConclusive: func(tier string) int { return 2000 },
 		NumPinned:     len(pinned),
 		CaseTimeoutS:  60,
 		Run:           run,
 	}
+}
+
+// devLimit: development aid only (C20_DEV_CASES=n shortens the case list; never set by run.sh / the MANIFEST).
+func devLimit() int {
+	n, _ := strconv.Atoi(os.Getenv("C20_DEV_CASES"))
+	return n
 }
 
 // ---------------------------------------------------------------------------------------------
@@ -136,6 +155,11 @@ func genDiffCase(c *core.Ctx) *diffCase {
 	d.mode = deoptModes[r.Intn(len(deoptModes))]
 	d.variants = []string{core.Pick(r, []string{"pre", "pre", "pre-bare", "lb"}), "post", "mid"}
 	d.midSel = r.Intn(1 << 20)
+	d.third = c.Thorough() || os.Getenv("C20_DEV_REREF") != ""
+	d.clone = r.Chance(3, 4)
+	if g.i && (g.feat["dot"] || g.feat["class-neg"] || g.feat["esc-D"] || g.feat["esc-W"] || g.feat["esc-S"] || g.feat["class-esc-D"] || g.feat["class-esc-W"] || g.feat["class-empty"]) {
+		d.clone = true // regexp2 compiles large case-insensitive sets slowly; compile once per battery
+	}
 	for f := range g.feat {
 		d.feats = append(d.feats, f)
 	}
@@ -155,7 +179,7 @@ type outcome struct {
 	enginesP string
 }
 
-func firstDiff(a, b *batteryResult) (op string, ta, tb string) {
+func firstDiff(a, b *batteryResult, skipSource bool) (op string, ta, tb string) {
 	if a.ctorErr != b.ctorErr {
 		return "construct", "ctor:" + a.ctorErr, "ctor:" + b.ctorErr
 	}
@@ -164,6 +188,9 @@ func firstDiff(a, b *batteryResult) (op string, ta, tb string) {
 		n = len(b.ops)
 	}
 	for i := 0; i < n; i++ {
+		if skipSource && a.ops[i].name == "source" && b.ops[i].name == "source" {
+			continue
+		}
 		if a.ops[i].name != b.ops[i].name || a.ops[i].text != b.ops[i].text {
 			return a.ops[i].name, a.ops[i].text, b.ops[i].text
 		}
@@ -225,7 +252,7 @@ func nonEmptyMatchBeyond0(b *batteryResult) bool {
 }
 
 func (d *diffCase) input(src []uint16, mode string) *batteryIn {
-	return &batteryIn{src: src, flags: d.flags, subj: d.subj, starts: d.starts, repl: d.repl, limits: d.limits, opStart: d.opStart, mode: mode}
+	return &batteryIn{src: src, flags: d.flags, subj: d.subj, starts: d.starts, repl: d.repl, limits: d.limits, opStart: d.opStart, mode: mode, clone: d.clone}
 }
 
 func runFresh(mode string, in *batteryIn) (*batteryResult, error) {
@@ -234,6 +261,30 @@ func runFresh(mode string, in *batteryIn) (*batteryResult, error) {
 		return nil, err
 	}
 	return runBattery(r, in), nil
+}
+
+// rtPool hands out one runtime per de-optimisation mode for the duration of one case: the batteries of P and of its
+// variants share it (every operation of a battery works on freshly made RegExp objects, nothing else is mutated).
+// A runtime on which a battery ended abnormally is dropped.
+type rtPool struct{ m map[string]*goja.Runtime }
+
+func (p *rtPool) run(mode string, in *batteryIn) (*batteryResult, error) {
+	if p.m == nil {
+		p.m = map[string]*goja.Runtime{}
+	}
+	r := p.m[mode]
+	if r == nil {
+		var err error
+		if r, err = newPreparedRuntime(mode); err != nil {
+			return nil, err
+		}
+		p.m[mode] = r
+	}
+	res := runBattery(r, in)
+	if res.fuel || res.panicTxt != "" {
+		delete(p.m, mode)
+	}
+	return res, nil
 }
 
 // execDiff runs the whole differential protocol for one case. st == nil: quiet (minimisation).
@@ -256,7 +307,8 @@ func execDiff(d *diffCase, st *core.Stats) outcome {
 			st.Inc(k)
 		}
 	}
-	resP, err := runFresh("pristine", d.input(srcP, "pristine"))
+	var pool rtPool
+	resP, err := pool.run("pristine", d.input(srcP, "pristine"))
 	if err != nil {
 		out.inconcl = "driver"
 		return out
@@ -294,13 +346,26 @@ func execDiff(d *diffCase, st *core.Stats) outcome {
 			st.Count("matches_checked", int64(sc.nMatch))
 		}
 	}
+	// --- (5) third opinion (thorough tier): exec loops = reref
+	if d.third && resP.ctorErr == "" && rerefApplicable(d) {
+		why, steps, exhausted := thirdOpinion(d, resP)
+		if st != nil {
+			st.Count("reref:exec_steps_compared", int64(steps))
+			if exhausted {
+				st.Inc("reref:budget_exhausted")
+			}
+		}
+		if why != "" {
+			return fail("reref", "exec", why+"\nop dump: "+opText(resP, "exec"), "pristine/P")
+		}
+	}
 	// --- (1) engine pair
 	var firstVar *batteryResult
 	var firstVarSrc []uint16
 	usedBoth := false
 	for _, vk := range d.variants {
 		srcV := d.variantSrc(vk, u)
-		resV, err := runFresh("pristine", d.input(srcV, "pristine"))
+		resV, err := pool.run("pristine", d.input(srcV, "pristine"))
 		if err != nil {
 			out.inconcl = "driver"
 			return out
@@ -329,7 +394,7 @@ func execDiff(d *diffCase, st *core.Stats) outcome {
 			continue // trivial: not a verdict
 		}
 		usedBoth = true
-		if op, ta, tb := firstDiff(resP, resV); op != "" {
+		if op, ta, tb := firstDiff(resP, resV, true); op != "" {
 			return fail("engine-pair", op, fmt.Sprintf("P (%s):       %s\nvariant /%s/ (%s): %s", resP.engine, ta, unitsStr(srcV), resV.engine, tb), "variant:"+vk)
 		}
 		sc := mkSC()
@@ -352,7 +417,7 @@ func execDiff(d *diffCase, st *core.Stats) outcome {
 			pairs = append(pairs, pp{"variant:" + d.variants[0], firstVarSrc, firstVar})
 		}
 		for _, p := range pairs {
-			resD, err := runFresh(d.mode, d.input(p.src, d.mode))
+			resD, err := pool.run(d.mode, d.input(p.src, d.mode))
 			if err != nil {
 				out.inconcl = "driver"
 				return out
@@ -371,7 +436,15 @@ func execDiff(d *diffCase, st *core.Stats) outcome {
 					st.Inc("guard_flip_seen(instance):" + d.mode)
 				}
 			}
-			if op, ta, tb := firstDiff(p.ref, resD); op != "" {
+			if st != nil {
+				for _, o := range resD.ops {
+					if o.gets > 0 {
+						st.Inc("user_wrappers_reached(behaviour):" + d.mode)
+						break
+					}
+				}
+			}
+			if op, ta, tb := firstDiff(p.ref, resD, false); op != "" {
 				return fail("path-pair", op, fmt.Sprintf("pristine:   %s\n%s: %s", ta, d.mode, tb), "deopt:"+d.mode+"/"+p.name)
 			}
 			// user-visible exec protocol: a user-installed exec must really be called by the generic algorithms
@@ -503,7 +576,7 @@ func minimise(d *diffCase, first outcome) (*diffCase, outcome) {
 		if budget <= 0 {
 			return false
 		}
-		if cand.ast != nil && !inDomain(cand.ast, false, false) {
+		if cand.ast != nil && !domainOK(cand.ast, hasFlag(cand.flags, 'u')) {
 			return false
 		}
 		budget--
@@ -514,7 +587,13 @@ func minimise(d *diffCase, first outcome) (*diffCase, outcome) {
 		}
 		return false
 	}
-	cp := func() *diffCase { c := *cur; if cur.ast != nil { c.ast = cur.ast.clone() }; return &c }
+	cp := func() *diffCase {
+		c := *cur
+		if cur.ast != nil {
+			c.ast = cur.ast.clone()
+		}
+		return &c
+	}
 	// one variant, fewer starts
 	for _, vk := range cur.variants {
 		c := cp()
